@@ -301,6 +301,7 @@ func encTrial(r *vh.Rng, idx int, sum *vh.Summary, cv *vh.Cases, caseID *int) {
 	nh := r.Intn(6)
 	hist := []string{}
 	sawErr := false
+	var lastCyc *cyc
 	for s := 0; s < nh; s++ {
 		var v interface{}
 		kind := r.Intn(7)
@@ -319,6 +320,7 @@ func encTrial(r *vh.Rng, idx int, sum *vh.Summary, cv *vh.Cases, caseID *int) {
 			}
 			c := &cyc{A: 1}
 			c.Next = &cyc{A: 2, Next: c}
+			lastCyc = c
 			v = nest(r, r.Intn(3), c)
 			hist = append(hist, "cycle")
 		case 4: // failing writer at call k (io); explicit reset in the middle of the history (bytes)
@@ -372,6 +374,11 @@ func encTrial(r *vh.Rng, idx int, sum *vh.Summary, cv *vh.Cases, caseID *int) {
 		default:
 			ops[i] = okValue(r, format)
 		}
+	}
+	if lastCyc != nil {
+		// the same objects, no longer cyclic: a cycle stack that survived Reset would still reject them
+		lastCyc.Next.Next = nil
+		ops[0] = nest(r, r.Intn(2), lastCyc)
 	}
 	resetTo(-1, 0)
 	var fe *codec.Encoder
